@@ -11,6 +11,8 @@ From PV Require Import Extract.RunC20.
 From PV Require Import Extract.RunC15.
 From PV Require Import Extract.RunC18.
 From PV Require Import Extract.RunC11.
+From PV Require Import Extract.RunC16.
+From PV Require Import Extract.RunC14.
 Import ListNotations.
 Local Open Scope N_scope.
 
@@ -115,5 +117,12 @@ Definition run (cmd : N) (arg : sx) : sx :=
   | 110 => run_c11_parse arg
   | 111 => run_c11_spans arg
   | 112 => run_c11_cover arg
+  | 160 => run_c16_build arg
+  | 161 => run_c16_unsorted arg
+  | 162 => run_c16_keys arg
+  | 140 => run_c14_0 arg
+  | 141 => run_c14_1 arg
+  | 142 => run_c14_2 arg
+  | 143 => run_c14_3 arg
   | _ => L [A 999999]
   end.
